@@ -982,11 +982,13 @@ Proof. vm_compute. reflexivity. Qed.
 (* repaired (89ee4dd): the handler / sigmask constants of the signal module and
    the number 0 are not signals; computed over the generated tables, so the old
    SIGNUMS filter or a dropped name guard breaks this *)
+Definition rejected_as_signal (s : string) : bool :=
+  match conv_signal (GStr s) with Err ESignal => true | _ => false end.
 Lemma signal_constants_rejected :
-  Forall (fun s => conv_signal (GStr s) = Err ESignal)
-         ["0"; "_IGN"; "_DFL"; "SIG_IGN"; "SIG_DFL"; "SIG_BLOCK"; "_UNBLOCK"; "sig_setmask"; "-1"; "65"] /\
+  forallb rejected_as_signal
+          ["0"; "_IGN"; "_DFL"; "SIG_IGN"; "SIG_DFL"; "SIG_BLOCK"; "_UNBLOCK"; "sig_setmask"; "-1"; "65"] = true /\
   conv_signal (GStr "TERM") = Ok 15 /\ conv_signal (GStr "1") = Ok 1 /\ conv_signal (GStr "sigusr2") = Ok 12.
-Proof. vm_compute. repeat constructor. Qed.
+Proof. repeat split; vm_compute; reflexivity. Qed.
 
 (* every accepted signal is one of the generated SIGNUMS, and an accepted name
    does not carry the guarded prefix *)
